@@ -237,8 +237,18 @@ class DictField(Field):
             return value
         if isinstance(value, dict):
             # keys and values are stored in their basic form, too
-            value = {
-                self.key_field.to_python(cfg, key): self.value_field.to_python(cfg, val)  # type: ignore
-                for key, val in value.items()
-            }
+            decoded = {}
+            for key, val in value.items():
+                try:
+                    decoded[self.key_field.to_python(cfg, key)] = self.value_field.to_python(cfg, val)  # type: ignore
+                except ValidationError:
+                    raise
+                except Exception as exc:
+                    raise ValidationError(
+                        cfg,
+                        self,
+                        "invalid dictionary entry: %s" % exc,
+                        ref_path=DictProxy(cfg, self)._ref_path(key),
+                    ) from exc
+            value = decoded
         return DictProxy(cfg, self, value)
